@@ -7,6 +7,7 @@ import (
 	"math/big"
 	"strconv"
 	"strings"
+	"time"
 
 	"github.com/tjfoc/gmsm/gmtls"
 	"github.com/tjfoc/gmsm/sm2"
@@ -386,6 +387,24 @@ func evalSm2enc(args []string) string {
 		for _, x := range res[1:] {
 			if x != res[0] {
 				return "ORACLE-FAIL:empty-plaintext-forms-differ:" + strings.Join(res, "/")
+			}
+		}
+		// and with a random source that never ends (as crypto/rand): encryption of the empty plaintext terminates
+		for i, m := range [][]byte{nil, {}, buf[:0]} {
+			done := make(chan struct{})
+			go func(m []byte) {
+				defer close(done)
+				defer func() { recover() }()
+				if args[2] == "asn1" {
+					sm2.EncryptAsn1(pub, m, newRng(uint64(77+i)))
+				} else {
+					sm2.Encrypt(pub, m, newRng(uint64(77+i)), modeOf(args[2]))
+				}
+			}(m)
+			select {
+			case <-done:
+			case <-time.After(3 * time.Second):
+				return "ORACLE-FAIL:hang:encrypt-of-empty-plaintext-does-not-terminate"
 			}
 		}
 		return res[0]
